@@ -531,6 +531,8 @@ class Interp:
             if o.kind in ("qubit", "future"):
                 if attr in ("_conn", "connection"):
                     return Obj(None, {}, "conn")
+                if attr in o.fields and attr != "name":
+                    return o.fields[attr]  # state kept on the recorder (set by the interpreted code or pre-filled by the caller)
                 return ("boundmethod", o, attr)
             if o.cls is not None:
                 al = self.repo.property_alias(o.cls, attr)
